@@ -238,6 +238,14 @@ def evaluate(spec, table):
                             scalar=extra[0], where="frame"))
     # ---- ordered: declared columns present appear in declaration order
     if spec.get("ordered"):
+        seen_lab, prev = set(), object()
+        for l in labels:
+            if l != prev and l in seen_lab:
+                # a repeated label that is not adjacent to its twin: the docs
+                # do not say what "ordered" means then
+                v.undecided = True
+            seen_lab.add(l)
+            prev = l
         order = []
         for cs in spec["columns"]:
             for cs2, i in matched:
